@@ -3,8 +3,8 @@ import JunoModel.C18.ProofsSV
 namespace Juno.C18
 
 /-- Events a `runMigration i` may add without changing anything persistent. -/
-def Quiet (i : Nat) (cur : SV) : Event → Prop
-  | .before j _ => j = i
+def Quiet (i : Nat) (cur : SV) (tok : Option Bytes) : Event → Prop
+  | .before j st => j = i ∧ st = tok
   | .call j c => j = i ∧ c = cur
   | .ret j _ _ _ => j = i
   | _ => False
@@ -27,7 +27,7 @@ theorem mem_callIdxs {log : List Event} {j : Nat} : j ∈ callIdxs log ↔ ∃ c
 /-- The three shapes of one `runMigration`. -/
 inductive RM (cfg : Cfg) (env : Env) (last : SV) (i : Nat) (s : RunSt) : RunSt → Option Result → Prop
   | stop (s' : RunSt) (r : Result) (evs : List Event) :
-      s'.disk = s.disk → s'.cur = s.cur → s'.log = evs ++ s.log → (∀ e ∈ evs, Quiet i s.cur e) →
+      s'.disk = s.disk → s'.cur = s.cur → s'.log = evs ++ s.log → (∀ e ∈ evs, Quiet i s.cur (s.disk.ist i) e) →
       (callIdxs evs = [] ∨ callIdxs evs = [i]) →
       RM cfg env last i s s' (some r)
   | save (s' : RunSt) (r : Option Result) (st : Bytes) (c : Bool) :
@@ -755,5 +755,184 @@ theorem start_calls (cfg : Cfg) (d : Disk) (st : Start) :
     | false => rfl
     | true => rw [h5 j h0] at h3; cases h3
 
+
+/-- Resume tokens of one `Run`: what `Before` received and what is stored afterwards. -/
+structure TokQ (d : Disk) (s : RunSt) : Prop where
+  before_tok : ∀ j st, Event.before j st ∈ s.log → st = d.ist j
+  apply_tok : ∀ j, Event.apply j ∈ s.log → s.disk.ist j = none
+  save_tok : ∀ j st, Event.save j st ∈ s.log → s.disk.ist j = some st
+  keep_tok : ∀ j, Event.apply j ∉ s.log → (∀ st, Event.save j st ∉ s.log) → s.disk.ist j = d.ist j
+
+structure TokInv (d : Disk) (rest : List Nat) (s : RunSt) : Prop where
+  q : TokQ d s
+  nodup : rest.Nodup
+  fresh : ∀ j ∈ rest, Event.apply j ∉ s.log ∧ (∀ st, Event.save j st ∉ s.log)
+
+theorem tok_step (cfg : Cfg) (env : Env) (last : SV) (d : Disk) (i : Nat) (rest : List Nat)
+    (s s' : RunSt) (r : Option Result)
+    (h : TokInv d (i :: rest) s) (hrm : RM cfg env last i s s' r) :
+    (match (generalizing := false) r with
+      | none => TokInv d rest s' | some _ => TokQ d s') := by
+  have hnd := List.nodup_cons.mp h.nodup
+  have hfi := h.fresh i List.mem_cons_self
+  have htok : s.disk.ist i = d.ist i := h.q.keep_tok i hfi.1 hfi.2
+  have hrest : ∀ j ∈ rest, j ≠ i := fun j hj e => hnd.1 (e ▸ hj)
+  cases hrm with
+  | stop r evs hdisk hcur hlog hq hci =>
+    show TokQ d s'
+    have hnew : ∀ e ∈ evs, (∀ j, e ≠ Event.apply j) ∧ (∀ j st, e ≠ Event.save j st) := by
+      intro e he
+      have := hq e he
+      cases e <;> simp [Quiet] at this ⊢
+    refine ⟨?_, ?_, ?_, ?_⟩
+    · intro j st hj
+      rw [hlog] at hj
+      rcases List.mem_append.mp hj with hj | hj
+      · have := hq _ hj
+        simp only [Quiet] at this
+        obtain ⟨rfl, rfl⟩ := this
+        exact htok
+      · exact h.q.before_tok j st hj
+    · intro j hj
+      rw [hlog] at hj
+      rcases List.mem_append.mp hj with hj | hj
+      · exact absurd rfl ((hnew _ hj).1 j)
+      · rw [hdisk]; exact h.q.apply_tok j hj
+    · intro j st hj
+      rw [hlog] at hj
+      rcases List.mem_append.mp hj with hj | hj
+      · exact absurd rfl ((hnew _ hj).2 j st)
+      · rw [hdisk]; exact h.q.save_tok j st hj
+    · intro j h1 h2
+      rw [hdisk]
+      refine h.q.keep_tok j (fun hm => h1 ?_) (fun st hm => h2 st ?_)
+      · rw [hlog]; exact List.mem_append_right _ hm
+      · rw [hlog]; exact List.mem_append_right _ hm
+  | save _ st c hst hdisk hcur hlog hr =>
+    have hq' : TokQ d s' := by
+      refine ⟨?_, ?_, ?_, ?_⟩
+      · intro j t hj
+        rw [hlog] at hj
+        simp only [List.mem_cons, reduceCtorEq, false_or, Event.before.injEq] at hj
+        rcases hj with ⟨rfl, rfl⟩ | hj
+        · exact htok
+        · exact h.q.before_tok j t hj
+      · intro j hj
+        rw [hlog] at hj
+        simp only [List.mem_cons, reduceCtorEq, false_or] at hj
+        have hji : j ≠ i := fun e => hfi.1 (e ▸ hj)
+        rw [hdisk]; simp only [Disk.setIst, hji, if_false]; exact h.q.apply_tok j hj
+      · intro j t hj
+        rw [hlog] at hj
+        simp only [List.mem_cons, reduceCtorEq, false_or, or_false, Event.save.injEq] at hj
+        rcases hj with ⟨rfl, rfl⟩ | hj
+        · rw [hdisk]; simp [Disk.setIst]
+        · have hji : j ≠ i := fun e => hfi.2 t (e ▸ hj)
+          rw [hdisk]; simp only [Disk.setIst, hji, if_false]; exact h.q.save_tok j t hj
+      · intro j h1 h2
+        have hji : j ≠ i := by
+          intro e; subst e
+          exact h2 st (by rw [hlog]; simp)
+        rw [hdisk]; simp only [Disk.setIst, hji, if_false]
+        refine h.q.keep_tok j (fun hm => h1 ?_) (fun t hm => h2 t ?_)
+        · rw [hlog]; simp [hm]
+        · rw [hlog]; simp [hm]
+    cases r with
+    | some _ => exact hq'
+    | none =>
+      refine ⟨hq', hnd.2, ?_⟩
+      intro j hj
+      have hji := hrest j hj
+      have hf := h.fresh j (List.mem_cons_of_mem _ hj)
+      rw [hlog]
+      refine ⟨?_, ?_⟩
+      · simp only [List.mem_cons, reduceCtorEq, false_or]; exact hf.1
+      · intro t
+        simp only [List.mem_cons, reduceCtorEq, false_or, or_false, Event.save.injEq, not_or, not_and]
+        exact ⟨fun e => absurd e hji, hf.2 t⟩
+  | apply c hst herr hdisk hcur hlog =>
+    show TokInv d rest s'
+    have hq' : TokQ d s' := by
+      refine ⟨?_, ?_, ?_, ?_⟩
+      · intro j t hj
+        rw [hlog] at hj
+        simp only [List.mem_cons, reduceCtorEq, false_or, Event.before.injEq] at hj
+        rcases hj with ⟨rfl, rfl⟩ | hj
+        · exact htok
+        · exact h.q.before_tok j t hj
+      · intro j hj
+        rw [hlog] at hj
+        simp only [List.mem_cons, reduceCtorEq, false_or, Event.apply.injEq] at hj
+        rcases hj with rfl | hj
+        · rw [hdisk]; simp [Disk.setIst]
+        · have hji : j ≠ i := fun e => hfi.1 (e ▸ hj)
+          rw [hdisk]; simp only [Disk.setIst, hji, if_false]; exact h.q.apply_tok j hj
+      · intro j t hj
+        rw [hlog] at hj
+        simp only [List.mem_cons, reduceCtorEq, false_or] at hj
+        have hji : j ≠ i := fun e => hfi.2 t (e ▸ hj)
+        rw [hdisk]; simp only [Disk.setIst, hji, if_false]; exact h.q.save_tok j t hj
+      · intro j h1 h2
+        have hji : j ≠ i := by
+          intro e; subst e
+          exact h1 (by rw [hlog]; simp)
+        rw [hdisk]; simp only [Disk.setIst, hji, if_false]
+        refine h.q.keep_tok j (fun hm => h1 ?_) (fun t hm => h2 t ?_)
+        · rw [hlog]; simp [hm]
+        · rw [hlog]; simp [hm]
+    refine ⟨hq', hnd.2, ?_⟩
+    intro j hj
+    have hji := hrest j hj
+    have hf := h.fresh j (List.mem_cons_of_mem _ hj)
+    rw [hlog]
+    refine ⟨?_, ?_⟩
+    · simp only [List.mem_cons, reduceCtorEq, false_or, Event.apply.injEq, not_or]
+      exact ⟨hji, hf.1⟩
+    · intro t
+      simp only [List.mem_cons, reduceCtorEq, false_or]; exact hf.2 t
+
+
+theorem run_tokens (cfg : Cfg) (reg : Registry) (env : Env) (d : Disk) : TokQ d (run cfg reg env d).1 := by
+  have h0 : TokQ d ⟨d, d.metaD.cur, 0, []⟩ :=
+    ⟨fun _ _ h => (List.not_mem_nil h).elim, fun _ h => (List.not_mem_nil h).elim, fun _ _ h => (List.not_mem_nil h).elim, fun _ _ _ => rfl⟩
+  unfold run
+  simp only []
+  split
+  · exact h0
+  split
+  · exact h0
+  have h1 : TokQ d { (RunSt.tickEv ⟨d, d.metaD.cur, 0, []⟩ (.metaWrite ⟨d.metaD.cur, reg.target⟩)) with
+        disk := { d with md := some ⟨d.metaD.cur, reg.target⟩ } } := by
+    refine ⟨?_, ?_, ?_, fun _ _ _ => rfl⟩
+    · intro j st h; simp [RunSt.tickEv] at h
+    · intro j h; simp [RunSt.tickEv] at h
+    · intro j st h; simp [RunSt.tickEv] at h
+  split
+  · exact h1
+  split
+  · exact h1
+  · refine runLoop_inv cfg env reg.target (Q := TokQ d) (Inv := TokInv d) (fun l s h => h.q)
+      (fun i rest s s' r h hrm => tok_step cfg env reg.target d i rest s s' r h hrm) _ _ ?_
+    refine ⟨h1, (SV.iter_sorted _).imp (fun h => Nat.ne_of_lt h), ?_⟩
+    intro j _
+    simp [RunSt.tickEv]
+
+/-- Token threading for one start: `Before` receives exactly the token stored on the disk the
+start found; afterwards the stored token of a migration is gone if it was applied, is the state
+`Migrate` returned if one was saved, and is untouched otherwise (refused database, death or failed
+write before the save, error, not reached). -/
+theorem start_tokens (cfg : Cfg) (d : Disk) (st : Start) :
+    (∀ j t, Event.before j t ∈ (start cfg d st).2.1 → t = d.ist j) ∧
+    (∀ j, Event.apply j ∈ (start cfg d st).2.1 → (start cfg d st).1.ist j = none) ∧
+    (∀ j t, Event.save j t ∈ (start cfg d st).2.1 → (start cfg d st).1.ist j = some t) ∧
+    (∀ j, Event.apply j ∉ (start cfg d st).2.1 → (∀ t, Event.save j t ∉ (start cfg d st).2.1) →
+      (start cfg d st).1.ist j = d.ist j) := by
+  unfold start
+  cases hn : newRunner cfg st.reg d with
+  | optOut => exact ⟨fun _ _ h => (List.not_mem_nil h).elim, fun _ h => (List.not_mem_nil h).elim, fun _ _ h => (List.not_mem_nil h).elim, fun _ _ _ => rfl⟩
+  | downgrade => exact ⟨fun _ _ h => (List.not_mem_nil h).elim, fun _ h => (List.not_mem_nil h).elim, fun _ _ h => (List.not_mem_nil h).elim, fun _ _ _ => rfl⟩
+  | ok =>
+    have h := run_tokens cfg st.reg st.env d
+    exact ⟨h.before_tok, h.apply_tok, h.save_tok, h.keep_tok⟩
 
 end Juno.C18
